@@ -69,6 +69,22 @@ Theorem C20_grid_holes_lie_inside_the_frame :
 Proof. split; [exact grid_hole_in_frame | exact grid_hole_below_unit_max]. Qed.
 Print Assumptions C20_grid_holes_lie_inside_the_frame.
 
+(* the grid repeats over the whole frame: extent // unit + 1 layers along EACH axis with that axis' own extent and
+   unit; a configured holes_number is exceeded along its axis *)
+Theorem C20_grid_repeats_over_the_whole_frame :
+  (forall hx hy hz ro ratio sx sy sz img du dx dy dz Hh W D nx ny nz,
+     vshape img = (Hh, W, D) ->
+     GridDropoutS_get_params_dependent_on_targets_count (Some hx) (Some hy) (Some hz) ro ratio sx sy sz None None img du dx dy dz
+       = Ok (nx, ny, nz) ->
+     nx = W / (W / hx) + 1 /\ ny = Hh / (Hh / hy) + 1 /\ nz = D / (D / hz) + 1 /\ hx < nx /\ hy < ny /\ hz < nz) /\
+  (forall hx hy hz ro ratio sx sy sz a b img du dx dy dz Hh W D nx ny nz,
+     vshape img = (Hh, W, D) -> a <> 0 -> b <> 0 ->
+     GridDropoutS_get_params_dependent_on_targets_count hx hy hz ro ratio sx sy sz (Some b) (Some a) img du dx dy dz
+       = Ok (nx, ny, nz) ->
+     a <= du <= b /\ nx = W / du + 1 /\ ny = Hh / du + 1 /\ nz = D / du + 1).
+Proof. split; [exact grid_count_holes_number | exact grid_count_unit_size]. Qed.
+Print Assumptions C20_grid_repeats_over_the_whole_frame.
+
 (* a keypoint is removed iff it lies inside some hole, half-open on all three axes; survivors keep
    their order and values *)
 Theorem C20_keypoint_removed_iff_inside_a_hole : forall kps holes kp,
